@@ -249,6 +249,33 @@ def r_shutdown_seq(e, R):
                         and isinstance(cmp_.left, ast.Name) and cmp_.left.id == sent_counter \
                         and isinstance(cmp_.comparators[0], ast.Name) and cmp_.comparators[0].id in counters:
                     ok = True
+        if ok and wl is not None:
+            # decision table of the whole guard: it must hold exactly while sentinels are owed and somebody is alive
+            alive_fn = None
+
+            def classify(x, sent_counter=sent_counter):
+                if isinstance(x, ast.Name) and x.id == sent_counter:
+                    return "S"
+                if isinstance(x, ast.Name) and x.id in counters:
+                    return "N"
+                if isinstance(x, ast.Call) and e.callees_of(x):
+                    cf = e.prog.funcs[next(iter(e.callees_of(x)))]
+                    if any(isinstance(y, ast.Attribute) and y.attr == "is_alive" for y in ast.walk(cf.node)):
+                        return "A"
+                return None
+            try:
+                nm, tab, bad = guards.compare(wl.test, {"S": [0, 1, 2, 3], "N": [0, 1, 2, 3], "A": [0, 1, 2, 3]}, classify,
+                                              lambda env: env["S"] < env["N"] and env["A"] > 0,
+                                              constraint=lambda env: env["S"] <= env["N"])
+            except (guards.Inconclusive, KeyError) as ex:
+                raise AnalysisError(f"sentinel loop guard: {ex}")
+            for env, got, want in bad[:1]:
+                R.fail("R-SHUTDOWN-SEQ", f.short, f"while {norm(wl.test)}",
+                       f"the sentinel loop guard is {got} with {env['S']} sentinel(s) sent, {env['N']} worker(s) to stop and {env['A']} alive "
+                       f"(must be {want}): the loop stops although a live worker has not been sent its sentinel (the final join blocks forever), "
+                       "or keeps spinning when nobody is left", e.loc(f, wl.test), instance=f"{f.short}: sentinel loop guard table")
+            if not bad:
+                R.ok("R-SHUTDOWN-SEQ", f"{f.short}: sentinel loop guard == (sent < to_stop and alive > 0) on {len(tab)} rows", e.loc(f, wl.test))
         R.check(ok, "R-SHUTDOWN-SEQ", f"{f.short}: posts sentinels until as many as released workers were sent", f.short,
                 f"while {norm(wl.test) if wl is not None else '?'}",
                 "the number of sentinels posted is not bounded by / does not reach the number of workers to stop "
